@@ -35,9 +35,11 @@ impl<W: Write> DefaultProtocolWriter<W> {
     fn write_type_and_value(&mut self, type_id: u8, value: u64, mut size: u8) {
         if self.ok {
             size = size.saturating_sub(4);
+            // The 68-bit form carries a (always zero) nibble above bit 63; a shift by 64 would overflow.
+            let high_nibble = value.checked_shr(size as u32).unwrap_or(0);
             let mut r = self
                 .writer
-                .write_u8(type_id | (((value >> size) as u8) & 0x0F));
+                .write_u8(type_id | ((high_nibble as u8) & 0x0F));
             while size > 0 && r.is_ok() {
                 size = size.saturating_sub(8);
                 r = self.writer.write_u8((value >> size) as u8);
@@ -177,7 +179,7 @@ impl<W: Write> ProtocolWriter<W> for DefaultProtocolWriter<W> {
         } else if value < (1u64 << 60) {
             self.write_type_and_value(FSM_PROTOCOL_TYPE_INT_60BIT, value, 60);
         } else {
-            self.write_type_and_value(FSM_PROTOCOL_TYPE_INT_68BIT, value, 64);
+            self.write_type_and_value(FSM_PROTOCOL_TYPE_INT_68BIT, value, 68);
         }
     }
 
